@@ -381,6 +381,8 @@ _c15 = [
     ("c15_soc3_range", dict(nofloat=True, unit="SecondOrderCone::step_length -> _step_length_soc_component, _soc_residual", inst="f64 every bit pattern", bounds="dim 3, alpha_max in (0,1]", oracle="0 <= alpha <= alpha_max for z and s; panic unreachable", timeout=1800, mem_gb=20)),
     ("c15_soc3_cases", dict(nofloat=True, unit="SecondOrderCone::step_length", inst="f64 finite", bounds="dim 3", oracle="zero direction => alpha_max", timeout=1200, mem_gb=20)),
     ("c15_soc3_scalar_part_pow2", dict(nofloat=True, unit="SecondOrderCone::step_length -> _step_length_soc_component", inst="f64: signed powers of two, exponents -30..30", bounds="dim 3, tail = 0", oracle="alpha <= -x0/y0 and alpha in {alpha_max, -x0/y0} (exact distance)", timeout=1800, mem_gb=20)),
+    # c15_soc3_scalar_bound_interior (every finite f64 direction: alpha <= fl(-x0/y0) from an interior point): 30 min timeout on the unchanged tree - unregistered (outside)
+    ("c15_soc3_two_roots_pow2", dict(nofloat=True, unit="SecondOrderCone::step_length -> _step_length_soc_component (root selection), _soc_residual", inst="f64: x0, y1 signed powers of two (exponents -60..20, i.e. directions down to 1e-18: no 'tiny direction' shortcut), y0 in {-3,-1,0,3}*|y1|", bounds="dim 3, x = (x0,0,0), nonzero tail entry in either position", oracle="alpha == min(alpha_max, smallest positive root of the boundary quadratic) exactly: x0/(4|y1|) of two positive roots, x0/|y1| of a +/- pair, alpha_max when both are negative, the single root x0/(2|y1|) when the direction lies on the boundary of -K (a == 0)", timeout=1800, mem_gb=20)),
     ("c15_nn2_range", dict(nofloat=True, unit="NonnegativeCone::step_length", inst="f64 every bit pattern", bounds="dim 2, any alpha_max", oracle="<= alpha_max; >= 0 from an interior point", timeout=1200)),
     ("c15_nn3_range", dict(nofloat=True, tier="thorough", unit="same", inst="f64", bounds="dim 3", oracle="same", timeout=2400)),
     ("c15_nn2_exact_pow2", dict(nofloat=True, unit="NonnegativeCone::step_length", inst="f64: signed powers of two with symbolic exponents -40..40", bounds="dim 2", oracle="alpha == min(alpha_max, min_{d<0} -z/d) exactly; blocking coordinate lands on the boundary", timeout=1800)),
@@ -490,6 +492,7 @@ PROPS["C14"] = {
         ("c14_pow_grad_is_derivative_of_dual_barrier", dict(unit="PowerCone::barrier_dual / update_dual_grad_H", inst="Jet<GF(13)>", bounds="all z != 0, all alpha", oracle="d f*(z)/dz_j == grad[j]", timeout=2400, mem_gb=20)),
         ("c14_pow_hessian_is_derivative_of_grad", dict(unit="PowerCone::update_dual_grad_H", inst="Jet<GF(13)>", bounds="all z, alpha, j", oracle="d grad[i]/dz_j == H[i][j]", timeout=2400, mem_gb=20)),
         ("c14_pow_gradient_primal_assembly", dict(stubs=True, nofloat=True, unit="PowerCone::gradient_primal (the Newton-Raphson scalar solve _newton_raphson_powcone stubbed: arbitrary positive power of two)", inst="f64, factors powers of two (alpha in {1/8,1/4,1/2}, s_i = +-2^k, |k| <= 10)", bounds="-", oracle="g3 has the sign of s3; g1 = -(a g3 s3 + 1 + a)/s1, g2 = -((1-a) g3 s3 + 2 - a)/s2 for THAT g3 (=> <s,g> = -3 whatever the scalar solve returns)", timeout=1200)),
+        ("c14_pow_membership_symmetric_in_s3", dict(unit="PowerCone::is_primal_feasible / is_dual_feasible", inst="Jet<GF(13)> (exp, ln uninterpreted and memoised)", bounds="all s, all alpha != 0,1", oracle="membership invariant under s3 -> -s3 (primal and dual); s1 = 0 or s2 = 0 never interior", timeout=1200)),
         ("c14_dual_scaling_is_mu_times_hessian", dict(unit="Nonsymmetric3DConeUtils::use_dual_scaling, ExponentialCone::get_Hs / mul_Hs", inst="GF(13)", bounds="all H, mu, x", oracle="Hs == mu H; get_Hs / mul_Hs expose Hs", timeout=1200)),
     ]),
 }
